@@ -200,7 +200,9 @@ def special_mods(fmt, doc, rng, T):
                 cu = "%s-%s" % (uid, c)
                 if cu in vs:
                     out.append(({"path": ["payload", "variants", cu, "uid"], "value": cu + "x"}, "uid-misaligned"))
-                    out.append(({"path": ["payload", "variants", cu, "arches"], "value": sorted(set(vs[cu]["arches"]) | {"sparc"})}, "child-foreign-arch"))
+                    foreign = [a for a in ("sparc", "ia64", "s390", "armhfp") if a not in (v.get("arches") or [])]      # an arch the PARENT lacks
+                    if foreign and isinstance(vs[cu].get("arches"), list) and isinstance(v.get("arches"), list):
+                        out.append(({"path": ["payload", "variants", cu, "arches"], "value": sorted(set(vs[cu]["arches"]) | {foreign[0]})}, "child-foreign-arch"))
             out.append(({"path": ["payload", "variants", uid, "uid"], "value": uid + "x"}, "uid-changed"))
             out.append(({"path": ["payload", "variants", uid, "paths"], "value": 5}, "paths-not-a-dict"))
             out.append(({"path": ["payload", "variants", uid, "variants"], "value": sorted(v.get("variants", [])) + ["Ghost"]}, "dangling-child-reference"))
